@@ -116,7 +116,23 @@ impl ParsedProgram {
     Ok(())
   }
 
+  // The element decoders (`ConstElem::from_le`) report malformed data by
+  // panicking. A constant table is untrusted input, so those panics are turned
+  // into an error here instead of reaching the caller.
+  #[cfg(not(feature = "no_std"))]
   pub fn decode_const_entries(&self) -> MResult<Vec<Value>> {
+    match std::panic::catch_unwind(std::panic::AssertUnwindSafe(|| self.decode_const_entries_unguarded())) {
+      Ok(result) => result,
+      Err(_) => Err(MechError::new(MalformedConstantError, None).with_compiler_loc()),
+    }
+  }
+
+  #[cfg(feature = "no_std")]
+  pub fn decode_const_entries(&self) -> MResult<Vec<Value>> {
+    self.decode_const_entries_unguarded()
+  }
+
+  fn decode_const_entries_unguarded(&self) -> MResult<Vec<Value>> {
     let mut out = Vec::with_capacity(self.const_entries.len());
     let blob_len = self.const_blob.len() as u64;
 
@@ -168,7 +184,10 @@ impl ParsedProgram {
       let data = self.const_blob[start .. start + len].to_vec();
 
       // get the type from the id
-      let ty = &self.types.entries[const_entry.type_id as usize];
+      let ty = match self.types.entries.get(const_entry.type_id as usize) {
+        Some(ty) => ty,
+        None => return Err(MechError::new(MalformedConstantError, None).with_compiler_loc()),
+      };
 
       let val: Value = match ty.tag {
         #[cfg(feature = "bool")]
@@ -953,6 +972,13 @@ pub struct UnsupportedConstantEncodingError;
 impl MechErrorKind for UnsupportedConstantEncodingError {
   fn name(&self) -> &str { "UnsupportedConstantEncoding" }
   fn message(&self) -> String { "Unsupported constant encoding".to_string() }
+}
+
+#[derive(Debug, Clone)]
+pub struct MalformedConstantError;
+impl MechErrorKind for MalformedConstantError {
+  fn name(&self) -> &str { "MalformedConstant" }
+  fn message(&self) -> String { "Malformed constant: unknown type id or undecodable data".to_string() }
 }
 
 #[derive(Debug, Clone)]
